@@ -2,7 +2,7 @@ HOOKS = {
   'guard': 'cargo feature `verif` (default off) in laythe_core / laythe_vm / laythe_lib',
   'enable': 'Kani harness crates under /verif/kx depend on /repo crates by path with features=["verif"] where a private item must be reached; the Verus engine reads source text and needs no hook',
   'baseline_off_cmd': 'cd /repo && cargo nextest run --workspace --no-fail-fast --test-threads 8 --offline',
-  'source_commits': ['2f4e2ee', '649a94f', '0a5a8b0', 'e0d401d', '6a0a964'],
+  'source_commits': ['2f4e2ee', '649a94f', '0a5a8b0', 'e0d401d', '6a0a964', 'c8f2384'],
   'add_only': True,
 }
 ENGINES = [
@@ -314,5 +314,9 @@ _patch('C06', 'level_note', 'A-shape', 'A-shape (discharged at the source for wh
 _patch('C01', 'level_text', 'Unbounded proof', 'The compile scheme of the control flow and operators (compilerd / forc / funcc units, stub-and-log extraction of the real Compiler::binary / unary / ternary / if_ / while_ / for_ / function): operands in source order with the instruction of their operator, and / or jumping forward over the right operand, exactly one ternary or if branch, while and for loops with the condition (the iterator step) at the start label, a forward exit and a backward Loop, an expression-bodied function returning its value. Unbounded proof')
 _patch('C20', 'level_text', 'Complete (all usize lengths):', 'The native-call boundary keeps the temporary-root stack at its entry height on every path, including natives that fail through a `?` past their own pop_roots (ncall unit, Vm::call_native / release_native_roots; D34 found and fixed: such natives leaked roots without bound). Complete (all usize lengths):')
 _patch('C13', 'level_note', 'A-slot', 'A-slot (the part "the cache of module m is at index m.id()" is now an obligation: cacheidx unit, D35 found and fixed)')
-_patch('C01', 'level_text', 'Unbounded proof', 'Operator precedence and associativity (prattloop / prattops units): the real Parser::parse_precedence keeps the Pratt invariant (at binding power p one prefix action, then infix actions only for operators binding at least as tightly as p, each applied to the expression built so far, returning exactly when the next token binds more loosely; assignable only from the loosest level), and the real binary / and / or / unary / ternary / expr / prefix / infix hand it the right level: a binary operator parses its right operand exactly one level tighter (left associative), and / or at their own level or one tighter, a prefix operator at Unary, ternary branches as whole expressions; each builds the node its token spells. The order of the levels is generated from the declaration of enum Precedence, the binding power of each token is what the Kani table harness proves. Unbounded proof')
-_patch('C01', 'level_note', 'Not decided: parser, compiler lowering, call protocol.', 'Not decided: the statement and primary-expression parsers, which parse action the tables give a token (only its binding power), termination of the Pratt loop, scope-exit drops, call protocol.')
+_patch('C01', 'level_text', 'Unbounded proof', 'Operator precedence and associativity (prattloop / prattops units): the real Parser::parse_precedence keeps the Pratt invariant (at binding power p one prefix action, then infix actions only for operators binding at least as tightly as p, each applied to the expression built so far, returning exactly when the next token binds more loosely; assignable only from the loosest level), and the real binary / and / or / unary / ternary / expr / prefix / infix hand it the right level: a binary operator parses its right operand exactly one level tighter (left associative), and / or at their own level or one tighter, a prefix operator at Unary, ternary branches as whole expressions; each builds the node its token spells. The order of the levels is generated from the declaration of enum Precedence, the binding power AND the parse action of each token are what the Kani table harnesses prove (loop-free over all 69 token kinds: Parser::binary is reached exactly for the ten binary operator tokens, Parser::unary exactly for -, ! and <-). Unbounded proof')
+_patch('C01', 'level_note', 'Not decided: parser, compiler lowering, call protocol.', 'Not decided: the statement and primary-expression parsers, termination of the Pratt loop, scope-exit drops, call protocol.')
+_patch('C01', 'level_text', 'Unbounded proof', 'Calls (calls unit, the real Vm::op_call / resolve_call / call / call_closure / check_arity): a callee that does not accept the argument count raises the runtime error and pushes no frame, an accepted call pushes exactly one frame of that function with its captures and argument count, recursion beyond the frame limit is a catchable runtime error, a value that is not callable raises. Unbounded proof')
+_patch('C01', 'level_note', 'scope-exit drops, call protocol.', 'scope-exit drops, the frame layout behind push_frame / pop_frame.')
+_patch('C01', 'level_text', 'Unbounded proof', 'Block scopes (scopec unit, the real Compiler::scope / begin_scope / end_scope / drop_locals / drop_local_count / push_local / declare_local_variable / define_local_variable): a declared local is exactly one new entry at the current depth (its slot is the old local count; a captured one gets its box), and leaving a block emits one Drop for every local the block declared, no more and no fewer, removes exactly those entries and pops the block table, so a block leaves the locals of its surroundings as they were. Unbounded proof')
+_patch('C01', 'level_note', 'scope-exit drops, the frame layout', 'module-level declarations, let_ / block themselves (their callees are under contract), the frame layout')
